@@ -229,6 +229,12 @@ func (t *FSTree) readHeader(id oid.ID, f *os.File, buf []byte) ([]byte, io.ReadS
 			if l == 0 {
 				return nil, nil, io.ErrUnexpectedEOF
 			}
+			if offset+objectwire.NonPayloadFieldsBufferLength > len(buf) {
+				// found after a refill that kept a partial prefix: no room for
+				// the heading part behind offset, move what is buffered.
+				n = copy(buf, buf[offset:n])
+				offset = 0
+			}
 			size := min(offset+int(l), offset+objectwire.NonPayloadFieldsBufferLength)
 			if n < size {
 				_, err = io.ReadFull(f, buf[n:size])
